@@ -176,4 +176,33 @@ def rule_b(ctx: Ctx) -> None:
                 'schema_path defaulting to the absolute path of the selection, and report a missing declaration.')
 
 
-RULES = [rule_a, rule_b]
+def rule_c(ctx: Ctx) -> None:
+    """An element that a driver hands to XsdElement.raw_decode directly (path-selected, lazy chunk) gets its own namespace
+    context: the decoder establishes it itself, on every path, whatever the level."""
+    rule = 'C20.c'
+    f = ctx.idx.func('xmlschema.validators.elements.XsdElement.raw_decode')
+    g = cfg_of(ctx, f)
+    sets = [n for n, c in call_nodes(g, lambda c: text(c.func) == 'context.converter.set_xmlns_context' and [text(a) for a in c.args] == ['obj', 'context.level'])]
+    decs = [n for n, c in call_nodes(g, lambda c: text(c.func) in ('attribute_group.raw_decode', 'content_decoder.raw_decode'))]
+    ctx.floor(rule, 'decoder calls in XsdElement.raw_decode', len(decs), 3)
+    w = None
+    for d in decs:
+        w = w or g.must_pass(g.entry, [d], sets, kinds='nTF')
+    ok = bool(sets) and w is None
+    ctx.ob(rule, 'XsdElement.raw_decode establishes the namespace context of its element before attributes/content are decoded, on every path '
+                 '(not only at level 0)', f.loc(sets[0].ast) if sets else f.loc(), ok,
+           '' if ok else 'a path reaches the decoders without set_xmlns_context(obj, context.level): an element selected by a path or streamed by a '
+           'lazy resource is decoded with the in-scope namespaces of the previously processed sibling', key='XsdElement.raw_decode|xmlns-context')
+    # the parent group does it for the children it walks (so the call above is idempotent there)
+    gq = ctx.idx.func('xmlschema.validators.groups.XsdGroup.raw_decode')
+    gg = cfg_of(ctx, gq)
+    cs = [n for n, c in call_nodes(gg, lambda c: text(c.func) == 'context.converter.set_xmlns_context' and text(c.args[0]) == 'child')]
+    rec = [n for n, c in call_nodes(gg, lambda c: text(c.func) in ('xsd_element.raw_decode', 'self.maps.any_type.raw_decode'))]
+    dom = gg.dominators(kinds='nTF')
+    ok = bool(cs) and all(cs[0] in dom[r] for r in rec)
+    ctx.ob(rule, 'XsdGroup.raw_decode sets the namespace context of each child before decoding it', gq.loc(), ok, '', key='XsdGroup.raw_decode|xmlns-context')
+    ctx.explain('C20.c: must-pass-through from the entry of XsdElement.raw_decode to every decoder call through '
+                'set_xmlns_context(obj, context.level).')
+
+
+RULES = [rule_a, rule_b, rule_c]
